@@ -28,6 +28,9 @@ const c12Slug = "rollback-after-active-add-keeps-created-store"
 
 var c12Names = []string{"alpha", "beta", "gamma"}
 
+// c12Trace (C12_TRACE=1) prints every program and every injected fault to stderr (debugging aid).
+var c12Trace = os.Getenv("C12_TRACE") != ""
+
 // c12Use is what one transaction does with one name slot.
 type c12Use struct {
 	Slot int
@@ -179,8 +182,8 @@ type slotState struct {
 	Model       *txh.Model
 	Incarnation int
 	// ids and blob files of earlier incarnations of this name (must never be seen again)
-	OldIDs   map[string]bool
-	OldFiles map[string]bool
+	OldIDs    map[string]bool
+	OldFiles  map[string]bool
 	OldConfig string
 	// Tainted: a store that exists after a transaction in which an injected fault fired (it
 	// existed before a failed transaction, or Commit returned nil in spite of the failure). What a
@@ -191,9 +194,9 @@ type slotState struct {
 }
 
 type c12Outcome struct {
-	Fail     string
-	Labels   map[string]bool
-	Excluded []string
+	Fail       string
+	Labels     map[string]bool
+	Excluded   []string
 	NonTrivial bool
 	faultFired bool
 }
@@ -404,7 +407,7 @@ func runC12Txn(e *txh.Env, c c12Case, si int, step c12Step, st []*slotState, kno
 			return txh.Action{}
 		}
 		fired = s.Name()
-		if os.Getenv("C12_TRACE") != "" {
+		if c12Trace {
 			fmt.Fprintln(os.Stderr, "FIRED", s.String(), s.Info, "logState", logState, "inCommit", inCommit)
 		}
 		return txh.Action{Err: txh.ErrInjected}
@@ -466,7 +469,6 @@ open:
 			return ""
 		}
 	}
-	activeWrite := false
 	if opErr == nil {
 	ops:
 		for wi, u := range step.Uses {
@@ -524,14 +526,9 @@ open:
 				if ok != want {
 					return fmt.Sprintf("%s(%d) on %s returned %v, model says %v", op.Kind, op.K, c12Names[w.slot], ok, want)
 				}
-				if ok && w.info.IsValueDataActivelyPersisted && op.Kind != "remove" {
-					activeWrite = true
-				}
 			}
 		}
 	}
-	_ = activeWrite
-
 	committed := false
 	switch {
 	case opErr != nil:
@@ -661,14 +658,10 @@ func TestC12_CreateRemoveRecreate(t *testing.T) {
 	known := stats.Known("C12", c12Slug)
 	rapid.Check(t, func(t *rapid.T) {
 		c := genC12Case(t)
-		t0 := time.Now()
-		if os.Getenv("C12_TRACE") != "" {
+		if c12Trace {
 			fmt.Fprintln(os.Stderr, "START", c.render())
 		}
 		o := runC12(c, known)
-		if os.Getenv("C12_TRACE") != "" {
-			fmt.Fprintln(os.Stderr, "CASE", time.Since(t0).Milliseconds(), c.render())
-		}
 		for _, x := range o.Excluded {
 			rec.Exclude(x + " (known finding " + c12Slug + ")")
 		}
